@@ -597,6 +597,8 @@ class JsModule:
         fn = self.funcs.get(name)
         if fn is None:
             raise Unsupported('js function %s not found' % name)
+        if not all(p.get('type') == 'Identifier' for p in fn['params']):
+            raise Unsupported('js parameter that is not a plain identifier (default value / destructuring) in ' + name)
         params = [p['name'] for p in fn['params']]
         if len(params) != len(args):
             raise Unsupported('arity of ' + name)
